@@ -26,6 +26,8 @@ class CaseResult:
         self.sample = None
         self.infra = None
         self.known = []         # known-finding ids hit
+        self.pending_known = [] # (finding id, class, detail) tagged by a harness; known only if listed in known-findings.txt
+        self.tagged = []        # (finding id, Violation) to report as VIOLATION when the id is NOT listed
 
 
 def add_stats(dst, src):
@@ -114,6 +116,12 @@ def run_check(pid, modname, fn, bindir, n_cases, tier, level, rule, assumptions,
                     violations.append((w, v))
                 for k in r.known:
                     known_hit[k] = known_hit.get(k, 0) + 1
+                for (fid, cls, detail) in r.pending_known:
+                    if fid in known:
+                        known_hit[fid] = known_hit.get(fid, 0) + 1
+                for (fid, v) in r.tagged:
+                    if fid not in known:
+                        violations.append((w, v))
                 if budget_s and time.time() - t0 > budget_s:
                     it = iter(())
                 if len(violations) >= 3 or len(infra) >= 3:
@@ -141,7 +149,9 @@ def run_check(pid, modname, fn, bindir, n_cases, tier, level, rule, assumptions,
         reported += 1
         code = 1
     for k in sorted(known_hit):
-        print("KNOWN-FINDING: property=%s %s (reproduced in %d case(s) this run)" % (pid, known.get(k, k), known_hit[k]))
+        text = known.get(k, k)
+        text = text.split("id=%s" % k, 1)[-1].strip() if ("id=%s" % k) in text else text
+        print("KNOWN-FINDING: property=%s id=%s %s (reproduced %d time(s) this run)" % (pid, k, text, known_hit[k]))
     for msg in infra[:3]:
         print("INFRA: %s" % msg, file=sys.stderr)
     if infra and code == 0:
